@@ -298,7 +298,7 @@ package collection
 //@   requires rwOK(rw)
 //@   ensures rwOK(rw)
 //@   ensures rwAdded[rw] == upd(old(rwAdded[rw]), v, old(rwAdded[rw][v]) + 1)
-//@   modifies rwAdded[rw], RollingWindow.offset, RollingWindow.lastTime
+//@   modifies rwAdded[rw], rw.offset, rw.lastTime
 
 //@ func (rw *RollingWindow) Reduce
 //@   property C16
